@@ -61,10 +61,22 @@ Fixpoint fault_at (c : nat) (faults : list (nat * Z)) : option Z :=
 (** renderable state: (number of the call, stream position) *)
 Definition vr_state := (nat * Z)%type.
 
-Definition vr_render (nn : option Z) (total : Z) (faults : list (nat * Z)) (stamp : bool)
+Fixpoint ffault_at (o : Z) (ffaults : list (Z * Z)) : option Z :=
+  match ffaults with
+  | [] => None
+  | (k, v) :: r => if k =? o then Some v else ffault_at o r
+  end.
+
+(** [faults]: by number of the call (not deterministic in the sense of [render_det]);
+    [ffaults]: by requested frame of a definite source (deterministic) *)
+Definition vr_render (nn : option Z) (total : Z) (faults : list (nat * Z)) (ffaults : list (Z * Z))
+           (stamp : bool)
            (st : vr_state) (o : Z) (w : whence) (sz : size) (d : dur) (a : Z) : rres * vr_state :=
   let '(c, pos) := st in
-  match fault_at c faults with
+  match match fault_at c faults with
+        | Some k => Some k
+        | None => match nn with Some _ => ffault_at o ffaults | None => None end
+        end with
   | Some 0 => (RStop, (S c, pos))
   | Some k => (RErr k, (S c, pos))
   | None =>
@@ -87,6 +99,7 @@ Record tcase := {
   t_n : option Z;
   t_total : Z;
   t_faults : list (nat * Z);
+  t_ffaults : list (Z * Z);
   t_stamp : bool;
   t_cfg : config;
   t_ops : list op;
@@ -100,7 +113,7 @@ Record tcase := {
 
 Definition term8030 : size := (80, 30).
 
-Definition t_render (t : tcase) := vr_render (t_n t) (t_total t) (t_faults t) (t_stamp t).
+Definition t_render (t : tcase) := vr_render (t_n t) (t_total t) (t_faults t) (t_ffaults t) (t_stamp t).
 Definition t_rs0 : vr_state := (0%nat, 0).
 
 (** stamps (the number of the producing call) are erased when comparing with the
@@ -112,18 +125,22 @@ Definition erase_stamp (x : out * Z) : out * Z :=
   | _ => x
   end.
 
+(** agreement with the code model: trace and render-call log *)
+Definition model_ok (t : tcase) : bool :=
+  let render := t_render t in
+  let n := t_n t in
+  match mk vr_state n term8030 (t_cfg t) t_rs0, t_ctor t with
+  | inr e, Some e' => err_eqb e e' && match t_obs t with [] => true | _ => false end
+  | inl s, None =>
+    list_eqb obs_eqb (trace vr_state render n term8030 s (t_ops t)) (t_obs t)
+    && list_eqb rcall_eqb (rev (log (gh (run vr_state render n term8030 s (t_ops t))))) (t_log t)
+  | _, _ => false
+  end.
+
 (** *** C08: 0 agrees; +1 differs from the model; +2 contradicts the specification *)
 Definition check8 (t : tcase) : nat :=
   let render := t_render t in
   let n := t_n t in
-  let ok_model :=
-      match mk vr_state n term8030 (t_cfg t) t_rs0, t_ctor t with
-      | inr e, Some e' => err_eqb e e' && match t_obs t with [] => true | _ => false end
-      | inl s, None =>
-        list_eqb obs_eqb (trace vr_state render n term8030 s (t_ops t)) (t_obs t)
-        && list_eqb rcall_eqb (rev (log (gh (run vr_state render n term8030 s (t_ops t))))) (t_log t)
-      | _, _ => false
-      end in
   let ok_spec :=
       match spec_mk vr_state n term8030 (t_cfg t) t_rs0, t_ctor t with
       | inr e, Some e' => err_eqb e e'
@@ -137,10 +154,48 @@ Definition check8 (t : tcase) : nat :=
         && Nat.eqb (length (t_tells t)) (length (t_ops t))
       | _, _ => false
       end in
-  ((if ok_model then 0 else 1) + (if ok_spec then 0 else 2))%nat.
+  ((if model_ok t then 0 else 1) + (if ok_spec then 0 else 2))%nat.
 
 Fixpoint index_from {A} (k : nat) (l : list A) : list (nat * A) :=
   match l with [] => [] | x :: r => (k, x) :: index_from (S k) r end.
 
 Definition bad8 (cases : list tcase) : list (nat * nat) :=
   filter (fun p => negb (Nat.eqb (snd p) 0)) (index_from 0 (map check8 cases)).
+
+(** *** C09: a pair (the case with its [cache] argument, the same case with [cache=False]).
+    Specification side, on the observations alone: identical frames / countdown / errors
+    (call stamps erased); with caching off every delivered frame was freshly rendered
+    (stamps 0,1,2,...); with caching on (documented rule: [True] or [n <= cache], never
+    INDEFINITE) no frame was rendered twice in a row under the same settings; caching
+    never renders more. *)
+Definition stamps (obs : list (out * Z)) : list Z :=
+  flat_map (fun x => match fst x with OFrame f => [nth 7 (f_output f) (-9)] | _ => [] end) obs.
+Fixpoint increasing_from (k : Z) (l : list Z) : bool :=
+  match l with [] => true | x :: r => (k <=? x) && increasing_from (x + 1) r end.
+Definition doc_cache_enabled (t : tcase) : bool :=
+  match t_n t with
+  | None => false
+  | Some k => match c_cache (t_cfg t) with CBool b => b | CInt v => k <=? v end
+  end.
+Definition opt_err_eqb (a b : option err) : bool :=
+  match a, b with None, None => true | Some x, Some y => err_eqb x y | _, _ => false end.
+
+Definition check9 (p : tcase * tcase) : nat :=
+  let '(tc, tu) := p in
+  let fresh t := if t_stamp t then increasing_from 0 (stamps (t_obs t)) else true in
+  let ok_spec :=
+      opt_err_eqb (t_ctor tc) (t_ctor tu)
+      && list_eqb obs_eqb (map erase_stamp (t_obs tc)) (map erase_stamp (t_obs tu))
+      && fresh tu
+      (* every delivered frame was a render; at most one render (the failing, last one) delivered none *)
+      && Nat.leb (length (filter (fun x => match fst x with OFrame _ => true | _ => false end) (t_obs tu)))
+                 (length (t_log tu))
+      && Nat.leb (length (t_log tu))
+                 (S (length (filter (fun x => match fst x with OFrame _ => true | _ => false end) (t_obs tu))))
+      && (if doc_cache_enabled tc then no_repeatb (rev (t_log tc))
+          else fresh tc && Nat.eqb (length (t_log tc)) (length (t_log tu)))
+      && Nat.leb (length (t_log tc)) (length (t_log tu)) in
+  ((if model_ok tc && model_ok tu then 0 else 1) + (if ok_spec then 0 else 2))%nat.
+
+Definition bad9 (cases : list (tcase * tcase)) : list (nat * nat) :=
+  filter (fun p => negb (Nat.eqb (snd p) 0)) (index_from 0 (map check9 cases)).
